@@ -222,6 +222,11 @@ func c09Exec(o c09Op) (dig string) {
 			}
 		}
 		l.GetEightChar().SetSect(1)
+		// a round of read-only questions to the Lunar (the deprecated aliases included) leaves the chart as configured
+		digest1(l)
+		if l.GetEightChar().GetSect() != 1 {
+			return "LEAK: after SetSect(1) on the chart of a Lunar, calling the Lunar's zero-argument accessors changed the chart's sect back to " + fmt.Sprint(l.GetEightChar().GetSect())
+		}
 		// one Solar converted twice: the second Lunar is a new object with its own (default) chart
 		sol := calendar.NewSolar(a[0], a[1], a[2], 23, a[4], a[5])
 		chart0 := digest1(sol.GetLunar().GetEightChar())
@@ -804,10 +809,11 @@ func c09ChildMain(args []string) int {
 		// The parent compares what an accessor says when it comes first with what it says in the other children, where
 		// it comes late: package-level tables built on first use must not change an answer.
 		mk := func() []reflect.Value {
-			l := calendar.NewSolar(2024, 3, 15, 9, 10, 11).GetLunar()
+			// 2024-05-12: a weekday-festival day (second Sunday of May), so that festival look-ups have something to find
+			l := calendar.NewSolar(2024, 5, 12, 9, 10, 11).GetLunar()
 			os := []interface{}{l, l.GetSolar(), l.GetEightChar(), l.GetFoto(), l.GetTao(), l.GetTime(),
-				calendar.NewLunarMonthFromYm(l.GetYear(), l.GetMonth()), calendar.NewLunarYear(l.GetYear()), calendar.NewSolarWeekFromYmd(2024, 3, 15, 1),
-				calendar.NewSolarMonthFromYm(2024, 3), calendar.NewSolarYearFromYear(2024), calendar.NewNineStar(4)}
+				calendar.NewLunarMonthFromYm(l.GetYear(), l.GetMonth()), calendar.NewLunarYear(l.GetYear()), calendar.NewSolarWeekFromYmd(2024, 5, 12, 1),
+				calendar.NewSolarMonthFromYm(2024, 5), calendar.NewSolarYearFromYear(2024), calendar.NewNineStar(4)}
 			vs := make([]reflect.Value, len(os))
 			for i, o := range os {
 				vs[i] = reflect.ValueOf(o)
@@ -1332,7 +1338,7 @@ func c09Custom(pc *Parent) {
 					if n == 0 {
 						when = "first"
 					}
-					pc.Violate("cold-first-call", fmt.Sprintf("slot%d", e.I), fmt.Sprintf("accessor number %d of the cold-process universe (2024-03-15 09:10:11 objects) answers %s when it is called %s in a fresh process whose first accessor was number %d, and %s in a process that started with another accessor", e.I, e.D, when, r.idx, w), nil, nil)
+					pc.Violate("cold-first-call", fmt.Sprintf("slot%d", e.I), fmt.Sprintf("accessor number %d of the cold-process universe (2024-05-12 09:10:11 objects) answers %s when it is called %s in a fresh process whose first accessor was number %d, and %s in a process that started with another accessor", e.I, e.D, when, r.idx, w), nil, nil)
 				}
 				pc.R.Evals++
 			}
